@@ -36,10 +36,11 @@ Section Lifecycle.
     ds_outbox (fst (encoder_data E st dev p rx c now)) = ds_outbox st \/
     ds_outbox (fst (encoder_data E st dev p rx c now)) = mark_rows c now (d_fup dev) (ds_outbox st).
   Proof.
-    unfold encoder_data. destruct (encode_message E _ _ _); [|now left|now left].
-    destruct (l_update_device_state _ _) as [st2 e] eqn:U. right.
-    pose proof (ob_uds (l_set_sent_time st c now (d_fup dev)) (set_counters dev (d_fup dev) ((d_fdn dev + 1) mod 65536) (d_keywarn dev))) as H.
-    rewrite U in H. cbn [fst] in H. destruct e; cbn [fst]; rewrite H; apply ob_mark.
+    unfold encoder_data. destruct (encode _); [|now left|now left].
+    destruct (l_next_fdn st) as [st1 [cn|]] eqn:U; cbn [fst].
+    - apply next_row in U. destruct U as (r0 & _ & _ & _ & _ & U4 & _).
+      destruct (encode_message E _ _ _); cbn [fst]; [right; rewrite ob_mark; now rewrite U4 | left; exact U4 | left; exact U4].
+    - apply next_none in U. destruct U as [-> _]. now left.
   Qed.
   Lemma ob_encoder_join st dev j rx : ds_outbox (fst (encoder_join E D st dev j rx)) = ds_outbox st.
   Proof.
@@ -103,9 +104,9 @@ Section Lifecycle.
       - exists (l1 ++ [(snd (pm_queue st2 f now), d_fup dev1)]). right. cbn [fst]. rewrite S, Q.
         unfold marks. now rewrite fold_left_app. }
     destruct (d_fup dev <=? fcnt f).
-    - destruct (l_update_device_state st _) as [st1 e] eqn:U.
-      pose proof (ob_uds st (set_counters dev ((fcnt f + 1) mod 65536) (d_fdn dev) (if (1 <? n)%nat then true else d_keywarn dev))) as H.
-      rewrite U in H. cbn [fst] in H. destruct e; [exists []; now left|]. now apply Body.
+    - destruct (l_advance_fup st _ _ _) as [st1 [e|]] eqn:U.
+      + apply adv_fail in U. destruct U as [-> ->]. destruct (d_relaxed dev); [now apply Body | exists []; now left].
+      + apply adv_row in U. destruct U as (r1 & _ & _ & _ & _ & U3 & _). now apply Body.
     - now apply Body.
   Qed.
 
